@@ -13,30 +13,36 @@ PLAN = [  # cfg, overrides, guards relevant
     ("ipam_sts_default.cfg", {"MaxOps": "7"}, ["resyncReread", "podlock:resync", "apiDoubleCheck", "bindUidGuard"]),
     ("ipam_sts_immutable.cfg", {"MaxOps": "6"}, ["unbindUid", "resyncReread", "podlock:apirelease", "podlock:resync", "podlock:unbind", "apiDoubleCheck"]),
     ("ipam_sts_cloud.cfg", {"MaxOps": "5"}, ["unbindUid", "bindStaleLister", "podlock:unbind", "podlock:bind", "resyncReread"]),
-    ("ipam_dp_pool.cfg", {"MaxOps": "5"}, ["bindPoolSize", "dplock:filter", "podlock:filter", "unbindUid"]),
-    ("ipam_dp_immutable.cfg", {"MaxOps": "5"}, ["dplock:unbind", "dplock:filter", "apiDoubleCheck", "unbindUid", "resyncReread"]),
+    ("ipam_dp_pool_q.cfg", {"MaxOps": "5"}, ["bindPoolSize", "dplock:filter", "podlock:filter", "unbindUid"]),
+    ("ipam_dp_immutable_q.cfg", {"MaxOps": "5"}, ["dplock:unbind", "dplock:filter", "apiDoubleCheck", "unbindUid", "resyncReread"]),
 ]
 outdir = "/verif/spec/schedules"
 timeout = os.environ.get("ATK_TIMEOUT", "600")
 seen = set()
 results = {}
+only_cfgs = sys.argv[1:]
 for cfg, over, guards in PLAN:
+    if only_cfgs and cfg not in only_cfgs:
+        continue
+    key = cfg.replace(".cfg", "").replace("ipam_", "").replace("_q", "")
     for g in guards:
-        for prop in PROPS:
-            args = ["python3", "/verif/lib/attack.py", cfg, g, "only=" + prop, "workers=" + os.environ.get("ATK_WORKERS", "8")] + ["%s=%s" % kv for kv in over.items()]
+        left = list(PROPS)
+        while left:  # all remaining properties at once; every counterexample removes its property and the run repeats
+            args = ["python3", "/verif/lib/attack.py", cfg, g, "only=" + ",".join(left), "workers=" + os.environ.get("ATK_WORKERS", "12")] + ["%s=%s" % kv for kv in over.items()]
             try:
                 p = subprocess.run(args, stdout=subprocess.PIPE, stderr=subprocess.PIPE, text=True, timeout=int(timeout) + 60, env=dict(os.environ, ATK_TIMEOUT=timeout))
                 r = json.loads(p.stdout)
             except Exception as e:
-                print("FAIL", cfg, g, prop, repr(e)[:100], flush=True)
+                print("FAIL", cfg, g, left, repr(e)[:100], flush=True)
+                break
+            print(cfg, over, g, r.get("violated"), r.get("states"), len(r.get("schedule", [])), flush=True)
+            if not r.get("schedule"):
+                break
+            left.remove(r["violated"])
+            h = hashlib.sha1(json.dumps(r["schedule"], sort_keys=True).encode()).hexdigest()
+            if h in seen:
                 continue
-            print(cfg, over, g, prop, r.get("violated"), r.get("states"), len(r.get("schedule", [])), flush=True)
-            if r.get("schedule"):
-                h = hashlib.sha1(json.dumps(r["schedule"], sort_keys=True).encode()).hexdigest()
-                if h in seen:
-                    continue
-                seen.add(h)
-                key = cfg.replace(".cfg", "").replace("ipam_", "")
-                results.setdefault(key, []).append({"scenario": r["scenario"], "guard": g, "violated": r["violated"], "schedule": r["schedule"]})
-                json.dump(results[key], open(os.path.join(outdir, "attack_%s.json" % key), "w"))
+            seen.add(h)
+            results.setdefault(key, []).append({"scenario": r["scenario"], "guard": g, "violated": r["violated"], "schedule": r["schedule"]})
+            json.dump(results[key], open(os.path.join(outdir, "attack_%s.json" % key), "w"))
 print("done", {k: len(v) for k, v in results.items()})
